@@ -143,7 +143,7 @@ Section Cap.
       unfold mfl, mflimitPlusOne, iend_, iend, MFLIMIT in *. lia. }
     assert (Hrec : NCap (search vrd tt od dd dictSmall startIndex dictSize dtable dictDelta inputSize maxOutputSize
                             f s (forwardIp + step) (smn / 2 ^ LZ4_skipTrigger) (smn + 1)
-                            (hashPosition vrd tt (forwardIp + step)) (set tab fh forwardIp))).
+                            (hashPosition vrd tt (forwardIp + step)) (set tab fh (idx tt forwardIp)))).
     { apply IH; try assumption; try lia.
       assert (0 < 2 ^ LZ4_skipTrigger) by (unfold LZ4_skipTrigger; lia).
       apply Z.div_le_lower_bound; lia. }
@@ -166,7 +166,7 @@ Section Cap.
     (* the state handed to _next_match *)
     assert (Hpre : hwlim_ok_lits s l ->
                    CPre (mkC (forwardIp - back) (c_anchor s) (c_op s + 1 + extlen l + l) (c_seqs s)
-                             (set tab fh forwardIp)
+                             (set tab fh (idx tt forwardIp))
                              (Z.max (c_hw s) (c_op s + 1 + extlen l + wild8_len (c_op s + 1 + extlen l) (c_op s + 1 + extlen l + l)))) l).
     { intros Hlim. unfold CPre. cbn [c_ip c_anchor c_op c_seqs c_hw].
       split; [lia|]. split; [lia|]. split; [unfold l; lia|]. split; [lia|].
@@ -226,10 +226,10 @@ Section Cap.
       forall n,
       n = (if i1 >=? mfl then NLast (mkC i1 i1 o3 (sq :: c_seqs s) (c_tab s) (Z.max hw1 o3))
            else
-             let tab := set (c_tab s) (hashPosition vrd tt (i1 - 2)) (i1 - 2) in
+             let tab := set (c_tab s) (hashPosition vrd tt (i1 - 2)) (idx tt (i1 - 2)) in
              let h := hashPosition vrd tt i1 in
              let '(mi2, low2) := candidate dd startIndex dictSize dtable dictDelta tab h in
-             let tab0 := set tab h i1 in
+             let tab0 := set tab h (idx tt i1) in
              if (if dictSmall then mi2 >=? prefixIdxLimit startIndex dictSize else true)
                 && match tt with
                    | ByU16 => if LZ4_DISTANCE_MAX =? LZ4_DISTANCE_ABSOLUTE_MAX then true else mi2 + LZ4_DISTANCE_MAX >=? i1
@@ -253,7 +253,7 @@ Section Cap.
         unfold mlim, matchlimit, iend_, LASTLITERALS in *. unfold i1. lia. }
       cbv zeta.
       destruct (candidate dd startIndex dictSize dtable dictDelta
-                  (set (c_tab s) (hashPosition vrd tt (i1 - 2)) (i1 - 2)) (hashPosition vrd tt i1)) as [mi2 low2].
+                  (set (c_tab s) (hashPosition vrd tt (i1 - 2)) (idx tt (i1 - 2))) (hashPosition vrd tt i1)) as [mi2 low2].
       match goal with |- NCap (if ?c then _ else _) /\ _ => destruct c end.
       - split; [|cbn [c_ip c_anchor]; unfold i1, MINMATCH; lia].
         cbn [NCap]. unfold CPre. cbn [c_ip c_anchor c_op c_seqs c_hw].
